@@ -67,6 +67,13 @@ def check(run):
                 rem = [rng.choice([0, 1, 2, 3, 4, 5, 6, 8, 9, 254, 255, start % 256, (start + 1) % 256]) for _ in range(rng.choice([0, 0, 1, 1, 2, 3, 4]))]
                 seq.append(f"rln atomic {hex(start)} {vs} {','.join(hex(x) for x in rem) or '-'}")
             seq += ["rln root", "rln leaves_set", "rln empty", f"rln get_leaf {hex(rng.choice([0, 1, 2, 3, 5, 8]))}", f"rln get_leaf {hex(start % (1 << 20))}"]
+            if rng.random() < 0.35:
+                # "or none": the same batch calls from a caller whose reader fails after delivering its bytes — an error, and
+                # every observable as before
+                v2 = treegen.vlist([treegen.val(rng) for _ in range(rng.choice([1, 2]))])
+                seq += [rng.choice([f"rln io r set_leaves_from {hex(start)} {v2}", f"rln io r atomic {hex(start)} {v2} 0x1", f"rln io r1 atomic {hex(start)} {v2} -",
+                                    f"rln io r init_leaves {v2}", f"rln io r set_leaf 0x1 {hex(treegen.val(rng))}", "rln io w empty", "rln io w root"]),
+                        "rln root", "rln leaves_set", "rln empty", "rln get_leaf 0x1"]
         rs.append(seq)
     run.differential("rln-batch-api-clean", [[l for l in s2 if not rln_shape(l)] for s2 in rs])
     run.differential("rln-batch-api-defect-region", rs, classify=classify_rln)
